@@ -124,6 +124,26 @@ def nt_c15(tr):
     return bool(kinds & {2, 3}) and has(tr, 3) and (has(tr, 21) or has(tr, 23) or has(tr, 4))
 
 
+def nt_c08(tr):
+    # at least two client tasks issued registry operations on one type, one of them mutating, and an instance terminated or was spawned on demand
+    regs = [e for e in tr if e[0] == 33]
+    clients = {e[2] for e in regs}
+    return len(clients) >= 2 and any(e[3] in (2, 3, 4) for e in regs) and (has(tr, 14) or has(tr, 1, lambda e: e[7] == 6))
+
+
+def nt_c02(tr):
+    # calls from at least two client tasks were answered, or an operation was pending when the target's task ended
+    calls = [e for e in tr if e[0] == 5 and e[4] == 1]
+    answered = {e[1] for e in tr if e[0] == 6 and e[2] == 1}
+    clients = {e[2] for e in calls if e[1] in answered}
+    if len(clients) >= 2:
+        return True
+    pos = {e[1]: i for i, e in enumerate(tr) if e[0] == 5}
+    ret = {e[1]: i for i, e in enumerate(tr) if e[0] == 6}
+    ends = [i for i, e in enumerate(tr) if e[0] == 14]
+    return any(pos[o] < i < ret.get(o, 10 ** 9) for o in pos for i in ends)
+
+
 PROPS = {
     "C07": {
         "families": [("restart", 1000, 25000), ("timers", 400, 10000), ("lifecycle", 200, 6000)],
@@ -232,6 +252,24 @@ PROPS = {
         "rule": "cases generated from (family, VERIF_SEED, index): conversion / drop programs that leave any combination of Addr, OwningAddr, Sender, Caller alive, with Context::stop / restart from handlers, timers of all kinds and weak upgrades; non-trivial = a Sender or Caller existed, some handle was dropped, and a context operation, a tick or an upgrade was observed; distinct = distinct case JSON",
         "assumptions": ["'conversions never change which actor is addressed' is checked on the implementation side: the harness derives the target of a converted handle from the library (context id of the handle) and the search acceptor compares it with the source handle's target"],
     },
+    "C08": {
+        "families": [("registry", 1200, 30000), ("registry-liveness", 400, 10000)],
+        "monitors": ["C14", "C03"],
+        "theorems": ["C08_operations_refine_the_sequential_spec", "C08_spawned_on_demand_only", "C08_exclusive_while_spawning", "C08_registry_changes_only_by_its_operations"],
+        "nontrivial": nt_c08,
+        "rule": "cases generated from (family, VERIF_SEED, index): 1-4 client tasks issuing from_registry, setup, register, replace, unregister, try_from_registry, already_running, stop, halt and self-stopping calls on two service types, with random schedules; non-trivial = two or more tasks used the registry, one operation mutated it, and an instance terminated or was spawned on demand; distinct = distinct case JSON",
+        "assumptions": ["the registry is process-global: the harness clears it between cases through the cfg(hannibal_verif) hook",
+                        "F7 (debug_assert ping panics the caller of from_registry when the service's started fails) is avoided by the generators and recorded as a known finding"],
+    },
+    "C02": {
+        "families": [("mailbox", 700, 20000), ("faults", 500, 12000), ("stop-race", 300, 8000), ("timeouts", 300, 8000), ("owning", 200, 6000)],
+        "monitors": ["C04", "C03"],
+        "theorems": ["C02_call_returns_its_slot", "C02_response_only_from_own_handler", "C02_handler_answers_own_message", "C02_response_written_once"],
+        "nontrivial": nt_c02,
+        "rule": "cases generated from (family, VERIF_SEED, index): concurrent calls, pings, sends, halts, joins and awaits from 1-4 client tasks through Addr, OwningAddr, Caller, WeakCaller; every termination cause (stop, last drop, failed start, handler panic, fatal timeout, task cancellation) at random positions relative to the pending operations; non-trivial = calls of two different client tasks were answered, or an operation was pending when its target's task ended; distinct = distinct case JSON",
+        "assumptions": ["the response of the script actor's handlers is the actor's whole log at completion, so two different invocations never produce equal responses by accident",
+                        "'provided user handlers themselves terminate': generated handlers always do"],
+    },
     "C14": {
         "families": [("liveness-query", 900, 25000), ("registry-liveness", 500, 12000), ("faults", 200, 6000)],
         "monitors": ["C14"],
@@ -266,6 +304,20 @@ COMMON_NOTE = ("Trusted: Coq kernel; the hand-written model's fidelity (checked 
                "No axioms. Real-thread races inside external crates and real wake-ups beyond the sampled cases are outside.")
 
 MANIFEST_TEXT = {
+    "C02": {
+        "text": "Theorems (Coq): C02_response_written_once (over every continuation of any length a written response is never rewritten, swapped or withdrawn), C02_response_only_from_own_handler (for every event: a value enters the slot of message o only by the completion of o's own handler), "
+                "C02_handler_answers_own_message, C02_call_returns_its_slot. Exactly-once handling is C01_queued_at_most_once. [partial] 'every operation resolves after termination' is the model's progress check (no returnable operation may be pending when the executor is idle) validated by correspondence and the search acceptor, plus C04_announce for awaits and C06_containment for the failure paths.",
+        "note": COMMON_NOTE,
+        "technique": "Rocq/Coq proof (invariant over all continuations + one-step theorems over all states and events) over an executable model; correspondence by differential run of model and implementation",
+        "design_ref": "DESIGN.md section 6 C02",
+    },
+    "C08": {
+        "text": "Theorems (Coq, for every state): C08_operations_refine_the_sequential_spec (every registry operation the model lets return satisfies the sequential specification spec_ok: result and new map, case by case as the property lists them), C08_spawned_on_demand_only, C08_exclusive_while_spawning, "
+                "C08_registry_changes_only_by_its_operations (for every event). Each operation takes effect in one step between its invocation and its response, so the accepted histories are linearizable by construction of the model; that the implementation's histories are accepted is the correspondence check on the registry families. The search acceptor re-checks every returned instance against its own sequential registry.",
+        "note": COMMON_NOTE,
+        "technique": "Rocq/Coq proof (refinement of a sequential specification, one-step over all states) over an executable model; correspondence by differential run of model and implementation on concurrent histories",
+        "design_ref": "DESIGN.md section 6 C08",
+    },
     "C05": {
         "text": "Theorems (Coq, one-step, every state): C05_strong_counted_weak_not (every strong kind is counted on the waiting closure, weak kinds on nothing), C05_drop_gives_back, C05_upgrade_iff_strong_reference, C05_last_drop_drains_then_stops (the closed-mailbox exit is taken only with no reference left and an empty queue). "
                 "[partial] the accounting invariant over all reachable states (count >= number of strong handles, so that an existing strong handle implies 'alive') is not proved: every upgrade answer, every context-stop answer, every timer give-up and every closed-mailbox exit of the implementation is compared with the model's counts by correspondence, and the search acceptor keeps its own per-actor count of strong handles.",
